@@ -537,6 +537,16 @@ class _FnState(object):
                                  ast.BitXor)) and 'set' in (a.kind,
                                                             b.kind):
                 return AV('set', a.ord | b.ord, a.val | b.val)
+            # d.keys() & e.keys(), d.items() - ...: set algebra on dict
+            # views gives a plain set (no `set(` in sight)
+            if isinstance(e.op, (ast.BitOr, ast.BitAnd, ast.Sub,
+                                 ast.BitXor)) and any(
+                    isinstance(x, ast.Call) and isinstance(
+                        x.func, ast.Attribute)
+                    and x.func.attr in ('keys', 'items')
+                    for x in (e.left, e.right)):
+                return AV('set', {('HASH', self._src_key(e))},
+                          a.val | b.val)
             k = a.kind if a.kind == b.kind else 'unk'
             return AV(k, a.ord | b.ord, a.val | b.val, a.kord | b.kord)
         if isinstance(e, ast.UnaryOp):
